@@ -97,24 +97,30 @@ _LIST_VALUES = {
 def iter_atomic_values(xsd_type: XsdTypeProtocol) -> Iterator[aliases.AtomicType]:
     """Generates a list of XSD atomic values related to provided XSD type."""
 
-    def _iter_values(root_type: XsdTypeProtocol, depth: int) -> Iterator[aliases.AtomicType]:
-        if depth > 15:
-            return
-        if root_type.name in atomic_values:
-            yield atomic_values[root_type.name]
-        elif hasattr(root_type, 'member_types'):
-            for member_type in root_type.member_types:
-                yield from _iter_values(member_type, depth + 1)
+    def _iter_values(type_: Optional[XsdTypeProtocol], depth: int) -> Iterator[aliases.AtomicType]:
+        while depth <= 15 and type_ is not None:
+            if type_.name in atomic_values:
+                yield atomic_values[type_.name]
+                return
+            elif hasattr(type_, 'member_types'):
+                for member_type in type_.member_types:
+                    yield from _iter_values(member_type, depth + 1)
+                return
+            # the nearest base with a prototype: item/base type if the processor provides them
+            if depth == 1 and hasattr(type_, 'item_type'):
+                type_ = type_.item_type
+            else:
+                type_ = getattr(type_, 'base_type', None if type_ is type_.root_type else type_.root_type)
 
     atomic_values = _ATOMIC_VALUES[xsd_type.xsd_version]
     if xsd_type.name in atomic_values:
         yield atomic_values[xsd_type.name]
-    elif xsd_type.is_simple() or (simple_type := xsd_type.simple_type) is None:
+    elif xsd_type.is_simple():
+        yield from _iter_values(xsd_type, 1)
+    elif (simple_type := xsd_type.simple_type) is None:
         yield from _iter_values(xsd_type.root_type, 1)
-    elif simple_type.name in atomic_values:
-        yield atomic_values[simple_type.name]
     else:
-        yield from _iter_values(simple_type.root_type, 1)
+        yield from _iter_values(simple_type, 1)
 
 
 def get_atomic_sequence(xsd_type: Optional[XsdTypeProtocol],
